@@ -140,7 +140,35 @@ impl LsmTree {
         }
         Ok(Some(desc))
     }
+
+    /// The first half of `verif_compaction_step`: select under the compaction mutex and leave the
+    /// choice in the ongoing list, exactly as a compaction thread does before it starts to work.
+    pub fn verif_compaction_select(&self) -> Option<(VerifCompaction, VerifPending)> {
+        let _mutex = self.compaction.lock().unwrap();
+        let version = self.take_snapshot();
+        let compaction = version.version.next_compaction();
+        self.verif_proto.selected(compaction.as_ref());
+        let compaction = compaction?;
+        Some((verif_describe(&compaction.core), VerifPending(compaction)))
+    }
+
+    /// The second half: perform a compaction selected earlier (other selections, performs and
+    /// ingests may have happened in between, as they do with several compaction threads).
+    pub fn verif_compaction_perform(&self, pending: VerifPending) -> Result<(), SError> {
+        let compaction = pending.0;
+        if let Err(err) = self.perform_compaction(compaction.clone()) {
+            let _mutex = self.compaction.lock().unwrap();
+            let version = self.take_snapshot();
+            self.verif_proto.released(&compaction);
+            let _ = version.version.release_compaction(compaction);
+            return Err(err);
+        }
+        Ok(())
+    }
 }
+
+/// A compaction that was selected and not yet performed.
+pub struct VerifPending(super::Compaction);
 
 ///////////////////////////////////// selector on a given tree /////////////////////////////////////
 
